@@ -6,6 +6,7 @@ import (
 	"fmt"
 	"math/big"
 	"os"
+	"reflect"
 	"runtime"
 	"sort"
 	"strings"
@@ -423,7 +424,7 @@ func nonces(l []int) []int {
 }
 
 // invariants that must hold after every critical section
-func checkAlways(a *absState, lim limits) []string {
+func checkAlways(a *absState, lim limits, holed map[int]bool) []string {
 	var v []string
 	v = append(v, a.Anomalies...)
 	inList := map[[3]int]string{}
@@ -438,7 +439,7 @@ func checkAlways(a *absState, lim limits) []string {
 		for _, n := range qn {
 			inList[[3]int{ai + 1, n, a.Que[ai][n]}] = "queue"
 		}
-		if len(pn) > 0 && pn[len(pn)-1]-pn[0]+1 != len(pn) {
+		if len(pn) > 0 && pn[len(pn)-1]-pn[0]+1 != len(pn) && !holed[ai+1] {
 			v = append(v, fmt.Sprintf("PendingContiguous: account %d pending nonces %v have a gap", ai+1, pn))
 		}
 	}
@@ -472,6 +473,11 @@ func checkAlways(a *absState, lim limits) []string {
 	if a.Slots != len(all) {
 		v = append(v, fmt.Sprintf("IndexesAgree: slot counter %d but %d transactions indexed", a.Slots, len(all)))
 	}
+	// the price heaps are cleaned lazily: every entry that is no longer a remote of the hash index
+	// must have been announced with txPricedList.Removed (else the re-heap trigger never fires for it)
+	if a.ActualStale > a.Stales {
+		v = append(v, fmt.Sprintf("PricedStaleAccounting: %d stale heap entries but the stale counter is %d", a.ActualStale, a.Stales))
+	}
 	if len(all) > lim.GlobalSlots+lim.GlobalQueue {
 		v = append(v, fmt.Sprintf("LimitsRespected: %d transactions, capacity %d", len(all), lim.GlobalSlots+lim.GlobalQueue))
 	}
@@ -480,7 +486,7 @@ func checkAlways(a *absState, lim limits) []string {
 }
 
 // invariants that must hold at quiescent points
-func checkQuiescent(a *absState, lim limits) []string {
+func checkQuiescent(a *absState, lim limits, holed map[int]bool) []string {
 	var v []string
 	totalP, totalQ, over := 0, 0, false
 	for ai := range a.Pend {
@@ -491,7 +497,7 @@ func checkQuiescent(a *absState, lim limits) []string {
 			over = true
 		}
 		if len(pn) > 0 {
-			if pn[0] != a.Sn[ai] {
+			if pn[0] != a.Sn[ai] && !holed[ai+1] {
 				v = append(v, fmt.Sprintf("PendingContiguousFromStateNonce: account %d pending starts at %d, state nonce %d", ai+1, pn[0], a.Sn[ai]))
 			}
 			if a.Pn[ai] != pn[len(pn)-1]+1 {
@@ -582,6 +588,36 @@ type harness struct {
 	lastQ     uint64 // seq of the last quiescent run
 	runs      uint64 // completed runs
 	evictHold bool   // replay: set the lifetime back after the next eviction tick
+	inRun     bool            // between reorgBegin and reorg
+	reinj     map[[3]int]bool // transactions the current run re-injected (accepted or not)
+	holed     map[int]bool    // accounts whose pending list has the known reorg hole
+	runAdds   []*poolEvent
+	dropNoop  bool   // do not record tick runs that change nothing
+	lastQEv      *poolEvent // the last quiescent run (recorded or not)
+	lastSeq      uint64
+	noRecord     bool           // keep counters only (long soak runs)
+	evCount      map[string]int // events by kind (recorded or not, no-op ticks excluded)
+	nRemoved     int
+	nReinjected  int
+	qKept        bool       // the last recorded event is a quiescent run
+	pendingBegin *poolEvent // reorgbegin not yet recorded
+}
+
+func stripObs(a *absState) *absState {
+	c := *a
+	c.Slots, c.Stales, c.ActualStale, c.Anomalies, c.Priced = 0, 0, 0, nil, nil
+	return &c
+}
+
+func gapsOf(l []int) []int {
+	ns := nonces(l)
+	var out []int
+	for i := 1; i < len(ns); i++ {
+		for m := ns[i-1] + 1; m < ns[i]; m++ {
+			out = append(out, m)
+		}
+	}
+	return out
 }
 
 var (
@@ -642,12 +678,15 @@ type poolOpts struct {
 	initBal   []int
 	reorgFreq time.Duration
 	lifetime  time.Duration
+	dropNoop  bool
+	noRecord  bool
 }
 
 func newHarness(u *universe, o poolOpts) *harness {
 	installHook()
 	lg := quietLog()
-	h := &harness{u: u, lim: o.lim, owed: map[int]bool{}, nEvents: map[string]int{}}
+	h := &harness{u: u, lim: o.lim, owed: map[int]bool{}, nEvents: map[string]int{}, reinj: map[[3]int]bool{},
+		holed: map[int]bool{}, dropNoop: o.dropNoop, noRecord: o.noRecord, evCount: map[string]int{}}
 	h.cond = sync.NewCond(&h.mu)
 	h.chain = newStubChain(u, o.initBal, lg)
 	h.poolHead, h.lastSent = h.chain.head.id, h.chain.head.id
@@ -742,6 +781,10 @@ func (h *harness) onEvent(p *core.TxPool, seq uint64, ev string, args []interfac
 		if e.Res == "ok" && !e.Replaced {
 			h.owed[k.A] = true
 		}
+		if h.inRun {
+			h.runAdds = append(h.runAdds, e)
+			h.reinj[k.arr()] = true
+		}
 		mutation = true
 	case "setGasPrice":
 		e.Op = "setgas"
@@ -757,6 +800,7 @@ func (h *harness) onEvent(p *core.TxPool, seq uint64, ev string, args []interfac
 		mutation = true
 	case "reorgBegin":
 		e.Op = "reorgbegin"
+		h.inRun, h.reinj, h.runAdds = true, map[[3]int]bool{}, nil
 		if r, _ := args[0].(*core.VerifReset); r != nil {
 			e.Reset = true
 			if b := h.chain.blockOf(r.New); b != nil {
@@ -791,12 +835,47 @@ func (h *harness) onEvent(p *core.TxPool, seq uint64, ev string, args []interfac
 	}
 	_ = mutation
 	e.St = h.u.abstract(p.VerifSnapshotLocked(h.u.addrs...))
-	// native evaluation of the invariants on the implementation's state
-	if ev != "reorgBegin" {
-		e.viol = append(e.viol, checkAlways(e.St, h.lim)...)
+	// known finding (see known-findings.json): a reset that lowers the state nonce and loses one of the
+	// re-injected transactions (refused by add, or evicted again to make room) leaves a hole inside the
+	// pending list; the account is exempt from the contiguity checks until the hole is filled
+	if ev == "reorg" {
+		if e.Reset {
+			inPool := map[[3]int]bool{}
+			for _, k := range e.St.Loc {
+				inPool[k] = true
+			}
+			for _, k := range e.St.Rem {
+				inPool[k] = true
+			}
+			for ai := range e.St.Pend {
+				for _, m := range gapsOf(e.St.Pend[ai]) {
+					lost := false
+					for k := range h.reinj {
+						if k[0] == ai+1 && k[1] == m && !inPool[k] {
+							lost = true
+						}
+					}
+					if lost && !h.holed[ai+1] {
+						h.holed[ai+1] = true
+						h.violate("finding:reset-reinjection-lost",
+							fmt.Sprintf("PendingContiguous: account %d pending nonces %v: the reset lost re-injected nonce %d",
+								ai+1, nonces(e.St.Pend[ai]), m),
+							map[string]interface{}{"event": e, "before": h.prev, "reinjected": h.runAdds})
+					}
+				}
+			}
+		}
+		h.inRun = false
 	}
+	for a := range h.holed {
+		if len(gapsOf(e.St.Pend[a-1])) == 0 {
+			delete(h.holed, a)
+		}
+	}
+	// native evaluation of the invariants on the implementation's state
+	e.viol = append(e.viol, checkAlways(e.St, h.lim, h.holed)...)
 	if e.Q {
-		e.viol = append(e.viol, checkQuiescent(e.St, h.lim)...)
+		e.viol = append(e.viol, checkQuiescent(e.St, h.lim, h.holed)...)
 	}
 	if ev == "add" && h.prev != nil {
 		e.viol = append(e.viol, h.checkReplacement(e)...)
@@ -804,13 +883,46 @@ func (h *harness) onEvent(p *core.TxPool, seq uint64, ev string, args []interfac
 	if len(e.viol) > 0 {
 		h.violate("invariant", e.viol[0], map[string]interface{}{"all": e.viol, "event": e, "before": h.prev})
 	}
+	before := h.prev
 	h.prev = e.St
+	h.lastSeq = seq
+	h.evCount[e.Op]++
+	h.nRemoved += len(e.Removed)
+	if h.inRun && e.Op == "add" {
+		h.nReinjected++
+	}
+	if e.Q {
+		h.lastQEv = e
+	}
 	// no-op eviction ticks are not recorded
 	if ev == "evict" && len(e.Removed) == 0 {
 		h.cond.Broadcast()
 		return
 	}
-	h.events = append(h.events, e)
+	// tick runs that change nothing are not recorded either (except the first quiescent one after a change)
+	if h.dropNoop && !e.Reset && (ev == "reorgBegin" || ev == "reorg") {
+		if ev == "reorgBegin" {
+			h.pendingBegin = e
+			h.cond.Broadcast()
+			return
+		}
+		noop := len(e.Addrs) == 0 && len(e.Removed) == 0 && before != nil && reflect.DeepEqual(stripObs(before), stripObs(e.St))
+		if noop && (!e.Q || h.qKept) {
+			h.pendingBegin = nil
+			h.cond.Broadcast()
+			return
+		}
+		if h.pendingBegin != nil && !h.noRecord {
+			h.events = append(h.events, h.pendingBegin)
+		}
+		h.pendingBegin = nil
+		h.qKept = e.Q
+	} else {
+		h.qKept = false
+	}
+	if !h.noRecord {
+		h.events = append(h.events, e)
+	}
 	h.cond.Broadcast()
 }
 
@@ -907,10 +1019,7 @@ func (h *harness) waitFor(d time.Duration, pred func() bool) bool {
 // waitQuiescent waits for a run that completes at a quiescent point after now
 func (h *harness) waitQuiescent(d time.Duration) (*poolEvent, bool) {
 	h.mu.Lock()
-	from := uint64(0)
-	if n := len(h.events); n > 0 {
-		from = h.events[n-1].Seq
-	}
+	from := h.lastSeq
 	h.mu.Unlock()
 	ok := h.waitFor(d, func() bool { return h.lastQ > from })
 	if !ok {
@@ -918,10 +1027,5 @@ func (h *harness) waitQuiescent(d time.Duration) (*poolEvent, bool) {
 	}
 	h.mu.Lock()
 	defer h.mu.Unlock()
-	for i := len(h.events) - 1; i >= 0; i-- {
-		if h.events[i].Seq == h.lastQ {
-			return h.events[i], true
-		}
-	}
-	return nil, false
+	return h.lastQEv, h.lastQEv != nil
 }
